@@ -29,6 +29,9 @@ func TestCheck(t *testing.T) {
 	}
 	// second part: ONE case per scenario for the instance model (routing + grouping + all group machines on one
 	// clock); a published alert is a single event and the model decides which groups receive it
+	runN := vh.NewRun(env, "AM.Run.IngestRun")
+	runN.Prefix = "n"
+	maxIngest := env.N(250, 4)
 	runI := vh.NewRun(env, "AM.Run.InstRun")
 	runI.Prefix = "i"
 	maxInst := env.N(200, 4)
@@ -75,6 +78,16 @@ func TestCheck(t *testing.T) {
 			for name := range stats {
 				run.Count("cases_with", name)
 			}
+			// the same group run for the product provider x group (Model/Ingest.v): alerts as SUBMITTED, the model's
+			// provider computes what is stored and handed to the group
+			if runN.Len() < maxIngest {
+				if it, ist, ok := res.IngestCase(k); ok {
+					runN.Add(it, sc, ist["submission-merged-with-stored"] >= 1 || (ist["submission"] >= 3 && ist["tick"] >= 1))
+					runN.Count("ingest_groups", "compared")
+				} else {
+					runN.Count("ingest_groups", "skipped: provider GC and a submission at the same instant")
+				}
+			}
 		}
 		for _, v := range sysrun.Monitor(res, "C01") {
 			run.Violate(v.Key, v.What, sc)
@@ -118,6 +131,9 @@ func TestCheck(t *testing.T) {
 		if err := runD.Finish("hook-driven schedules of ingestion workers, doMaintenance and flushes on the real dispatcher with and without a group limit (package dconc); compared with Model/DispatchConc.v incl. the group counter and the limit-reached counter"); err != nil {
 			t.Fatal(err)
 		}
+	}
+	if err := runN.Finish("the same whole-instance scenarios, one case per aggregation group for the product provider x group (Model/Ingest.v): every alert as SUBMITTED to the provider, provider GCs, the group's events; the model's provider computes what is stored / handed on"); err != nil {
+		t.Fatal(err)
 	}
 	if err := runI.Finish("the same scenarios as ONE case each for the instance model (Model/Instance.v): real routing tree, global event list, a published alert is one event and the model routes and groups it; non-trivial = at least 2 alerts published and 2 distinct groups flushed"); err != nil {
 		t.Fatal(err)
